@@ -15,8 +15,8 @@ use crate::exec::execute;
 use crate::monitors::{run_monitor, Cover, Ctx, Violation, ALL_PROPS};
 use crate::profiles::{directed_for, profile_for};
 use crate::program::*;
-use crate::trace::Ev;
-use crate::types::lk;
+use crate::trace::{Ev, RAct};
+use crate::types::{lk, N_SHAPES};
 
 #[derive(Clone, Debug, Serialize, Deserialize)]
 pub struct KnownFinding {
@@ -113,7 +113,34 @@ pub fn evaluate(prog: &Arc<Program>, prop: &str, cross: bool) -> Evaluated {
     let ex = execute(prog);
     let a = analyze(prog, &ex.trace);
     let cx = Ctx { a: &a, dels: deliveries(&a) };
-    let (mut violations, cover) = run_monitor(prop, &cx);
+    let (mut violations, mut cover) = run_monitor(prop, &cx);
+    // which forms of the public API this execution went through (independent of the property under check)
+    for c in a.cmds.iter() {
+        match &c.act {
+            RAct::Register { once, form, mode, .. } => {
+                let shape = form % N_SHAPES;
+                let api = (form / N_SHAPES) % 2;
+                cover.count(if shape == 0 { "api/register_bundle_dyn" } else { "api/register_bundle_real_tuples" }, 1);
+                if *once {
+                    cover.count("api/register_once", 1);
+                } else if api == 0 {
+                    cover.count("api/register_spawn_plus_with", 1);
+                } else {
+                    cover.count(
+                        match mode {
+                            Mode::Cleanup => "api/register_on",
+                            Mode::Persistent => "api/register_on_persistent",
+                            Mode::Revokable => "api/register_on_revokable",
+                        },
+                        1,
+                    );
+                }
+            }
+            RAct::RunEnt { .. } => cover.count("api/run_command_to_plain_entity", 1),
+            RAct::SendSeEnt { .. } => cover.count("api/system_event_to_plain_entity", 1),
+            _ => {}
+        }
+    }
     // A panic inside the workload truncates the execution: whatever the property under check says about the rest of
     // the tree cannot hold (and correct code never panics in these workloads). C18 reports it itself.
     if let (Some((op, msg)), true) = (&a.panicked, prop != "C18") {
